@@ -21,6 +21,7 @@ type Obligation struct {
 	Cover  bool
 	Pos    token.Position
 	Note   string
+	AutoID string
 	// result
 	Result  string // unsat, sat, unknown, timeout, error
 	Solver  string
@@ -49,6 +50,7 @@ type VC struct {
 	assumptions map[string]bool // assumed/trusted items touched (for evidence)
 	unsupported []string
 	instN     int
+	atomicField map[string]*atomicFieldRef
 	pure      int
 	lastFilter *filterWitness
 }
@@ -56,7 +58,7 @@ type VC struct {
 func newVC(eng *Engine, fn string) *VC {
 	vc := &VC{eng: eng, fnName: fn, sortSeen: map[string]string{}, declSeen: map[string]bool{},
 		compSort: map[string]string{}, strLits: map[string]*Term{}, closures: map[*Term]*closureInfo{},
-		queries: map[*Term]*linqQuery{}, assumptions: map[string]bool{}}
+		queries: map[*Term]*linqQuery{}, assumptions: map[string]bool{}, atomicField: map[string]*atomicFieldRef{}}
 	vc.sortDecls = append(vc.sortDecls,
 		"(declare-datatypes ((Slice 0)) (((mk-slice (s.arr Int) (s.off Int) (s.len Int) (s.cap Int)))))",
 		"(declare-datatypes ((Iface 0)) (((mk-iface (i.tag Int) (i.val Int)))))",
@@ -239,7 +241,8 @@ func (vc *VC) structSort(t types.Type, st *types.Struct) string {
 
 func fieldSel(key, field string) string { return quoteSym(key + "." + field) }
 
-func structOf(t types.Type) (*types.Struct, bool) {
+// rawStruct: the struct type behind t (value-level view), unless opaque.
+func rawStruct(t types.Type) (*types.Struct, bool) {
 	if isOpaqueStruct(t) {
 		return nil, false
 	}
@@ -247,9 +250,29 @@ func structOf(t types.Type) (*types.Struct, bool) {
 	return st, ok
 }
 
+// atomicStructs are kept as one memory cell holding the whole struct value (instead of one cell per
+// field). Field accesses through a pointer become read-modify-write of that cell; the address of a
+// field of such a struct must not escape (checked, reported as out-of-subset).
+var atomicStructs = map[string]bool{"model.CmdType": true, "model.FilterType": true}
+
+func isAtomicStruct(t types.Type) bool {
+	if n, ok := t.(*types.Named); ok {
+		return atomicStructs[typeKey(n)]
+	}
+	return false
+}
+
+// structOf: memory-level view - the struct is decomposed into one cell per field.
+func structOf(t types.Type) (*types.Struct, bool) {
+	if isAtomicStruct(t) {
+		return nil, false
+	}
+	return rawStruct(t)
+}
+
 // mkStruct builds a struct value from field values.
 func (vc *VC) mkStruct(t types.Type, fields []*Term) *Term {
-	st, _ := structOf(t)
+	st, _ := rawStruct(t)
 	vc.sortOf(t)
 	if st.NumFields() == 0 {
 		return leaf("unit")
@@ -258,7 +281,7 @@ func (vc *VC) mkStruct(t types.Type, fields []*Term) *Term {
 }
 
 func (vc *VC) fieldOf(t types.Type, i int, v *Term) *Term {
-	st, _ := structOf(t)
+	st, _ := rawStruct(t)
 	vc.sortOf(t)
 	d := unfold(v)
 	if d.op == quoteSym("mk:"+typeKey(t)) && len(d.args) == st.NumFields() {
@@ -268,7 +291,7 @@ func (vc *VC) fieldOf(t types.Type, i int, v *Term) *Term {
 }
 
 func (vc *VC) withField(t types.Type, i int, v, nv *Term) *Term {
-	st, _ := structOf(t)
+	st, _ := rawStruct(t)
 	var fs []*Term
 	for j := 0; j < st.NumFields(); j++ {
 		if j == i {
@@ -358,7 +381,7 @@ func truncate(s string, n int) string {
 
 // sub returns the address of field i of the struct of type t at address p.
 func (vc *VC) sub(t types.Type, i int, p *Term) *Term {
-	st, ok := structOf(t)
+	st, ok := rawStruct(t)
 	if !ok {
 		// opaque struct: fields are never accessed; use a generic sub function per (type, index)
 		fn := quoteSym(fmt.Sprintf("sub:%s.#%d", typeKey(t), i))
@@ -521,7 +544,7 @@ func (vc *VC) ptrFacts(s *State, t types.Type, v *Term, depth int) *Term {
 			return mkAnd(app("<=", leaf("0"), app("strlen", v)), app("=", app("=", app("strlen", v), leaf("0")), app("=", v, leaf("0"))))
 		}
 	case *types.Struct:
-		if isOpaqueStruct(t) || depth > 2 {
+		if isOpaqueStruct(t) || depth > 2 || isAtomicStruct(t) || u.NumFields() > 24 {
 			return tTrue
 		}
 		var fs []*Term
@@ -615,4 +638,39 @@ func (vc *VC) render(o *Obligation, logic string) string {
 	}
 	b.WriteString("(check-sat)\n")
 	return b.String()
+}
+
+// atomicFieldRef describes the address of a field inside an atomic struct cell.
+type atomicFieldRef struct {
+	parent *Term           // address of the enclosing struct (itself possibly a field of an atomic struct)
+	ptype  types.Type      // type of the enclosing struct
+	idx    int
+	up     *atomicFieldRef // non-nil when parent is itself a field inside an atomic struct
+}
+
+// loadAtomicField reads the field described by ref.
+func (vc *VC) loadAtomicField(s *State, ref *atomicFieldRef) *Term {
+	var whole *Term
+	if ref.up != nil {
+		whole = vc.loadAtomicField(s, ref.up)
+	} else {
+		whole = vc.load(s, ref.ptype, ref.parent)
+	}
+	return vc.fieldOf(ref.ptype, ref.idx, whole)
+}
+
+// storeAtomicField writes the field described by ref (read-modify-write of the enclosing cell).
+func (vc *VC) storeAtomicField(s *State, ref *atomicFieldRef, v *Term) {
+	var whole *Term
+	if ref.up != nil {
+		whole = vc.loadAtomicField(s, ref.up)
+	} else {
+		whole = vc.load(s, ref.ptype, ref.parent)
+	}
+	nw := vc.name("upd", vc.sortOf(ref.ptype), vc.withField(ref.ptype, ref.idx, whole, v))
+	if ref.up != nil {
+		vc.storeAtomicField(s, ref.up, nw)
+		return
+	}
+	vc.storeVal(s, ref.ptype, ref.parent, nw)
 }
